@@ -18,6 +18,9 @@ fn aux() -> Map<String, Value> {
     m.insert("AuxShort".into(), json!({"type": "string", "minLength": 1, "maxLength": 4}));
     m.insert("AuxEnum".into(), json!({"type": "string", "enum": ["one", "two", "three"]}));
     m.insert("AuxStruct".into(), json!({"type": "object", "properties": {"ax": {"type": "integer"}}, "required": ["ax"]}));
+    // named types that carry their own default
+    m.insert("AuxLabel".into(), json!({"type": "string", "maxLength": 16, "default": "unnamed"}));
+    m.insert("AuxLevel".into(), json!({"type": "integer", "enum": [0, 1, 2], "default": 1}));
     m
 }
 
@@ -31,6 +34,8 @@ fn prop_schema(g: &mut G) -> (Value, bool) {
         r("AuxShort"),
         r("AuxEnum"),
         r("AuxStruct"),
+        r("AuxLabel"),
+        r("AuxLevel"),
         json!({"type": "array", "items": {"type": "integer"}}),
         json!({"type": ["string", "null"]}),
         json!({"type": "integer", "format": "uint8"}),
@@ -60,6 +65,12 @@ pub fn gen_c18_case(g: &mut G) -> Value {
             if !d.is_null() {
                 s["default"] = d;
             }
+        } else if s.get("$ref") == Some(&json!("#/definitions/AuxLabel")) && g.chance(2, 3) {
+            // property-level default next to the referenced type's own default,
+            // including the wrapped type's zero value
+            s["default"] = json!(*g.pick(&["", "named", "unnamed"]));
+        } else if s.get("$ref") == Some(&json!("#/definitions/AuxLevel")) && g.chance(2, 3) {
+            s["default"] = json!(*g.pick(&[0, 1, 2]));
         }
         props.insert(name.clone(), s);
     }
@@ -237,7 +248,7 @@ impl Property for C18 {
                 if let Some(o) = q.as_object_mut() {
                     o.remove("default");
                 }
-                crate::gen::schema::in_faithful(&q, &["AuxShort".to_string(), "AuxEnum".to_string(), "AuxStruct".to_string()])
+                crate::gen::schema::in_faithful(&q, &["AuxShort".to_string(), "AuxEnum".to_string(), "AuxStruct".to_string(), "AuxLabel".to_string(), "AuxLevel".to_string()])
             })
     }
     fn judge(&self, case_v: &Value, unit: &Unit, compile: &CompileStatus, probes: &[ProbeResult], py: &mut Py) -> Result<Judged, String> {
